@@ -206,6 +206,19 @@ CHECKS = {
               "HDF5, Keras deserialisation and eager execution are trusted runtime. Layers that do not build under the pinned Keras 3 "
               "(QBatchNormalization, folded, recurrent wrappers) are not generated."),
         technique="Coq obligations over translator-generated tables + differential round-trip runs (translation validation)"),
+    "C15": dict(
+        category="proof",
+        text=("Coq theorems (Properties/C15.v, over Q, for every kernel, bias, statistic -- gamma = 0 and tiny variances included -- and every "
+              "convolution that is homogeneous in the kernel): the folded layer conv(x, k*gamma*r) + (b-mu)*gamma*r + beta equals batch "
+              "normalisation of conv(x,k)+b with the moving statistics; with quantizers it is conv with the quantized folded kernel plus the "
+              "quantized folded bias; replacing a folded layer by a plain quantized layer holding get_folded_weights (unfolding) computes the "
+              "same value. Correspondence: the unbound call and get_folded_weights of QConv2DBatchnorm and QDepthwiseConv2DBatchnorm on a "
+              "stand-in self at training=False over folding mode, use_bias, center/scale, strides, padding, dilation, statistics and "
+              "quantizers against conv -> batch norm computed with TensorFlow ops (2e-4 relative)."),
+        design_ref="DESIGN.md section 5 C15, section 10",
+        note=(TB_COMMON + "Convolution homogeneity and rsqrt are Section hypotheses/variables. The folded classes and convert/unfold utilities do "
+              "not run under the pinned Keras 3 (two known findings): the anchored method bodies are executed on a duck-typed self."),
+        technique="Coq proof (field identity with the convolution as a Section variable) + differential correspondence through unbound methods"),
 }
 
 NOT_YET = "check not built yet in this development (design in DESIGN.md section 5); not a claim that proof is inapplicable"
